@@ -299,3 +299,30 @@ Proof.
       cbn [rbind] in H. injection H as <-. reflexivity.
     + intros w f' H. cbn in H. injection H as <-. reflexivity.
 Qed.
+
+(* The full statement (without [B]) is FALSE of the faithful model -- and of the library:
+   e = 2 * (<b, .> + 0)  (a FunctionalSum of two functionals flagged linear) on rn(1), b = [1], x = [1]:
+   e(x) = 2 but e.convex_conj.convex_conj(x) = 1, because FunctionalDefaultConvexConjugate inherits
+   the linear flag of its argument, so that Functional.__mul__ builds a LeftScalarMult where the rule
+   s * f~ * (1/s) needs a RightScalarMult (finding defaultconj-linear-flag). *)
+Lemma biconj_refuted_proof :
+  exists (e e' e'' : fxR) (x : Rvec) (vx vxx : extR),
+    wf 1 e /\ value sqrt 0 e [1] x = Ok vx /\ cconj [1] e = Ok e' /\ cconj [1] e' = Ok e'' /\
+    value sqrt 0 e'' [1] x = Ok vxx /\ ~ veq (Ok vxx) (Ok vx).
+Proof.
+  exists (FLeft 2 (FSum (FQuadS None (Some [1]) 0) (FConst 0))).
+  eexists. eexists. exists [1]. eexists. eexists.
+  split; [cbn [wf length]; repeat split; lra|].
+  split; [cbn [value rbind radd]; reflexivity|].
+  split.
+  { cbn [cconj]. numR. rewrite (Rleb_false 2 0) by lra. cbn [rbind]. unfold rmul, mul_right. numR.
+    rewrite (Reqb_false 2 0) by lra. cbn [mkLeft is_linear]. numR. rewrite (Reqb_true 0 0) by reflexivity.
+    cbn [andb mkLeft]. reflexivity. }
+  split.
+  { cbn [cconj]. numR.
+    assert (H1 : 1 / 2 * 2 = 1) by field. rewrite H1. rewrite (Rleb_false 1 0) by lra. cbn [rbind].
+    unfold rmul, mul_right. numR. rewrite (Reqb_false 1 0) by lra.
+    cbn [mkLeft is_linear]. numR. rewrite (Reqb_true 0 0) by reflexivity. cbn [andb mkLeft]. reflexivity. }
+  split; [cbn [value rbind radd escal eadd]; reflexivity|].
+  cbn. numR. unfold wdot, vmul. cbn. numR. lra.
+Qed.
